@@ -40,7 +40,7 @@ CHECKS["C14"] = ("limits", "exploration",
 
 CHECKS["C10"] = ("reject", "exploration",
    "deterministic simulation with fault injection (crash consistency of the build pipeline): the build is killed at a chosen token by one of ~57 failing-token kinds, including instruction/stack limits armed to trip inside a meta block; victim/control twins re-executed from boot; state-shape oracle right after the rejection and twin equality after every follow-up probe; thorough tier enumerates every cut position x every failing kind per sampled base program",
-   "Quick: seeded sampling of (history, base program, cut position, failing kind, trailing text, submission styles eval / compile+run, probes). Thorough: for half of the sampled base programs every token position x every failing kind is enumerated. Checks: right after the rejection the data stack, mode, nesting, pending flows and pending inputs are what they were; every later probe returns the same result and leaves the same visible stack, variables and output as on a control that never saw the rejected source; a source that fails at run time is not re-executed by later lines (literal probes push exactly their literal, print nothing).",
+   "Quick: seeded sampling of (history, base program, cut position, failing kind, trailing text, submission styles eval / compile+run, probes). Thorough: for half of the sampled base programs every token position x every failing kind is enumerated, in a strided order and up to a deterministic work budget of 8 million VM instructions per base program (bases that exceed it get a spanning sample of pairs instead of all of them). Checks: right after the rejection the data stack, mode, nesting, pending flows and pending inputs are what they were; every later probe returns the same result and leaves the same visible stack, variables and output as on a control that never saw the rejected source; a source that fails at run time is not re-executed by later lines (literal probes push exactly their literal, print nothing).",
    "Trusted: harness, verif_hooks dump. Name-space discipline: the rejected source, the history and the probes use disjoint names, so whether completed definitions of a rejected source survive is not observed. Output printed by meta blocks that completed before the rejection is not counted against it. Effects of user-defined immediate words executed at build time are a listed known finding.",
    "DESIGN.md §5 C10")
 
@@ -53,7 +53,7 @@ CHECKS["C04"] = ("bitshare", "exploration",
 CHECKS["C03"] = ("clones", "exploration",
    "deterministic simulation of a clone tree: up to six replicas share reference-counted storage; a seeded scheduler interleaves clone (Clone and c_api::xeh_snapshot) / drop / submit / single-instruction step / reverse-step / save / rollback / private-source actions; invariant after every event: every other replica and every saved snapshot renders unchanged; history check: replicas that reach the same script point agree on result, output and state",
    "Seeded exploration of who-acts-when over replicas that follow one script at their own pace, down to single VM instructions, with siblings dropped at arbitrary instants so that survivors flip onto the unique-owner paths. Snapshot immutability is checked after every action against a full rendering (machine state, contexts, flows, code and dictionary beyond boot, pending output) plus a probe of host objects; determinism of re-running is checked by comparing every replica that reaches a script point with the first one that got there.",
-   "Trusted: harness, verif_hooks renderings (values by content). Output printed twice after reverse steps is not compared (reverse stepping does not un-print; C02 excludes output). The d2 canvas (Cell::AnyRc) being shared between clones is a listed known finding, classified separately so that it suppresses nothing else. The words the property excludes are not generated.",
+   "A second engine (repl) drives the real REPL run_line and trial-mode hinter through hook H3 on two sessions: typed text leaves no trace in the live state, a snapshot slot changes only when run_line replaces it, /rollback gives back the popped snapshot, and a line rejected at build time leaves the session like one that never saw it. Trusted: harness, verif_hooks renderings (values by content). Output printed twice after reverse steps is not compared (reverse stepping does not un-print; C02 excludes output). The d2 canvas (Cell::AnyRc) being shared between clones is a listed known finding, classified separately so that it suppresses nothing else. The words the property excludes are not generated.",
    "DESIGN.md §5 C03")
 
 CHECKS["C06"] = ("cursor", "exploration",
@@ -65,8 +65,11 @@ CHECKS["C06"] = ("cursor", "exploration",
 CHECKS["C08"] = ("chaos", "exploration",
    "deterministic simulation with fault injection over API call sequences: one long-lived interpreter is driven by seeded sequences of eval / compile / run / next / rnext / error formatting / value formatting / disassembly / set-input / limit setters / recording toggle / clone, inside a simulated environment (stdout sink that breaks after n bytes, virtual files that are missing / unreadable / not UTF-8, stub child process, PRNG entropy); oracle = every call returns (panics caught, aborts and hangs seen by the supervising process); both overflow-check configurations",
    "Seeded exploration of call sequences with limit trips and environment faults firing inside words, in the release and the overflow-checked build. Two thirds of this property is input-space robustness (every word x every argument class): that part is covered by sampling a word x 0..3 arguments from 57 value classes as the workload corpus and is labelled as input enumeration by sampling, not as simulation. Every failure is minimised and replays exactly, in the build it was found in.",
-   "Trusted: harness, panic hook, supervisor. Proviso of the statement honoured: instruction and stack limits are always set; words whose argument is an allocation size (int!, uint!, random-bits, d2-resize) only get modest sizes. The terminal / line editor and the real file system are not exercised (stubs).",
+   "Trusted: harness, panic hook, supervisor. Proviso of the statement honoured: instruction and stack limits are always set; words whose argument is an allocation size (int!, uint!, random-bits, d2-resize) only get modest literal sizes; where a size operand nevertheless comes from elsewhere (stack leftovers re-read after an error, a doubling loop), the case-executing process has a memory guard: a single request of 4 GiB or more in a case that itself mentions a ten-digit integer or entropy, or a live footprint above 3 GiB, ends the case as outside the statement (counted as a probe, its shard range re-run without it); a giant request out of small arguments stays an abort violation. The terminal / line editor and the real file system are not exercised (stubs).",
    "DESIGN.md §5 C08")
+
+# engines that decide a property in addition to the one named in CHECKS
+EXTRA_ENGINES = {"repl": ["C03"]}
 
 PENDING = {k: "check under construction in this session (claimed in DESIGN.md); listed here only until its engine lands" for k in []}
 
@@ -95,10 +98,10 @@ def main():
         "source_commits": HOOK_COMMITS,
         "add_only": True
       },
-      "engines": [{"name": e, "path": f"/verif/sim/src/engines/{e}.rs", "serves_properties":[p for p,c in CHECKS.items() if c[0]==e], "kind_free_text":"deterministic simulation engine (seeded scheduler + fault injection + oracle) inside the xehsim binary"} for e in sorted({c[0] for c in CHECKS.values()})],
+      "engines": [{"name": e, "path": f"/verif/sim/src/engines/{e}.rs", "serves_properties":sorted([p for p,c in CHECKS.items() if c[0]==e] + EXTRA_ENGINES.get(e, [])), "kind_free_text":"deterministic simulation engine (seeded scheduler + fault injection + oracle) inside the xehsim binary"} for e in sorted({c[0] for c in CHECKS.values()} | set(EXTRA_ENGINES))],
       "checks": checks,
       "not_applicable": na,
-      "notes": "All checks are one binary (xehsim) built from /verif/sim against /repo's working tree. VERIF_SEED selects the batch (default 1); VERIF_JOBS the worker count (default: all cores). Exit 0 clean, 1 violation (VIOLATION line), 2 harness error. Known findings: /verif/known_findings.txt."
+      "notes": "All checks are one binary (xehsim) built from /verif/sim against /repo's working tree. VERIF_SEED selects the batch (default 1); VERIF_JOBS the worker count (default: all cores). Exit 0 clean, 1 violation (VIOLATION line), 2 harness error. Known findings: /verif/known_findings.txt. The registered commands take no run-count options; a run whose budget is overridden on the command line (--runs/--scale/--max-secs) writes its evidence to /verif/evidence/adhoc/ and never to the registered evidence file."
     }
     json.dump(m, open("/verif/MANIFEST.json","w"), indent=1)
     print("MANIFEST.json written:", len(checks), "checks,", len(na), "not applicable")
